@@ -40,13 +40,16 @@ var identities = []string{"none", "L", "T", "S", "S>L", "none>L", "failed"}
 // "other-mapping": the requester's own valid mapping (it is that mapping's listen client) and secret,
 // together with the victim tunnel's id
 var creds = []string{"mapping-id", "right-secret", "wrong-secret", "resume-garbage", "nothing", "other-mapping"}
+
 // json = hybrid{memory cache, JSON-file persistent tier}: the stand-alone deployment with persistence; the cached
 // copies of the mapping records are evicted after the mapping state is set up, so the decision is taken on
 // what the persistent tier holds
 // two-node = two servers, each hybrid{node-local memory cache, shared Redis}: the server under test has read the
 // mapping record before ANOTHER node changes the mapping's state (revoke / expire / deactivate / delete)
 var backends = []string{"memory", "redis", "json", "two-node"}
-var mstates = []string{"active", "revoked", "expired", "inactive", "missing"}
+
+// "expired-seconds-ago": the expiry time passed two seconds before the request (the usual expired state is an hour past)
+var mstates = []string{"active", "revoked", "expired", "inactive", "missing", "expired-seconds-ago"}
 
 // "local-route": a routing record that names THIS node as the source while no bridge exists (a record that
 // outlived its bridge, or a bridge that is about to be created)
@@ -351,6 +354,10 @@ func runCell(c Cell) (outcome, error) {
 			past := time.Now().Add(-time.Hour)
 			cur.ExpiresAt = &past
 			err = admin.Cloud.UpdatePortMapping(cur)
+		case "expired-seconds-ago":
+			past := time.Now().Add(-2 * time.Second)
+			cur.ExpiresAt = &past
+			err = admin.Cloud.UpdatePortMapping(cur)
 		case "inactive":
 			cur.Status = models.MappingStatusInactive
 			err = admin.Cloud.UpdatePortMapping(cur)
@@ -373,7 +380,19 @@ func runCell(c Cell) (outcome, error) {
 			if gerr != nil {
 				return out, gerr
 			}
-			if chk.IsValid() == (c.MState == "active") {
+			// (judged on the stored fields, not through the model's own validity helpers)
+			stored := false
+			switch c.MState {
+			case "active":
+				stored = true
+			case "revoked":
+				stored = chk.IsRevoked
+			case "expired", "expired-seconds-ago":
+				stored = chk.ExpiresAt != nil && time.Now().After(*chk.ExpiresAt)
+			case "inactive":
+				stored = chk.Status == models.MappingStatusInactive
+			}
+			if stored {
 				break
 			}
 		}
@@ -687,6 +706,18 @@ func TestReplay(t *testing.T) {
 		}
 		if out.key != "" {
 			vkit.Violation(t, out.key, out.detail, rc)
+		}
+		return
+	}
+	var uc ReuseCase
+	vkit.LoadReplay(path, &uc)
+	if uc.IDReuse != "" {
+		out, err := runIDReuse(uc)
+		if err != nil {
+			t.Fatal(err)
+		}
+		if out.key != "" {
+			vkit.Violation(t, out.key, out.detail, uc)
 		}
 		return
 	}
